@@ -73,6 +73,7 @@ var Tokens = []string{
 	"|", "| a | b |", "|---|---|", "| :-- | --: |", "|:-:|", "a | b", "--- | ---", "\\|", "~~", "~", "~~~", "[ ] ", "[x] ", "[X] ", "- [ ] ", "[^1]", "[^1]: ", "[^a]", "[^a]: note", "\n[^1]: n\n", "![^1]",
 	": ", "\n: def", "term\n: def", "'", "\"", "--", "---", "...", "<<", ">>", "'s", "\"q\"", "'90", "'90s", "'tis", "''", "\"\"", "1/2", "9", "0", "'a'", "a'b", "(\"", "\")",
 	"{#id}", "{.c}", "{#i .c k=\"v\"}", "{k=v}", " {#x}", "{", "}", "{#a<b}",
+	"{id=[]}", "{title=[]}", "{data-x=[]}", "{k=[]}", "{title=[[]]}", "{title={}}", "{title=\"\"}", "{title=''}", "{. .x}", "{.}", "{#}", "{k=}", "# a {title=[]}\n", "# a {id=[] .c}\n", "{title=[\"\"]}", "{title=0}", "{title=-0}", "{title=1e999}",
 	"{id=1}", "{id=true}", "{id=-1.5e3}", "{id=[1,\"a\"]}", "{id={a=1}}", "{id=\"x\"}", "{class=1}", "{.a class=\"b\"}", "{id=null}", "{title=\"a\\\"b\"}", "{data-x=1}", "{onclick=\"x\"}", "# h {id=1}\n", "h {id=1}\n===\n",
 	// a "paragraph" that a paragraph transformer takes away (only definitions; a table head) directly followed by a line that
 	// asks for the paragraph before it (Setext underline, definition description, delimiter row), also as a later item
